@@ -28,7 +28,7 @@ import (
 	"verif/vk"
 )
 
-const c13Rule = "(a) rapid: free group templates (depth<=3, 1-6 members, optional members absent, 0-4 entries) placed first/middle/last among body tags, written with SetGroup+build (a quarter of them set a first time with another population, optionally serialised, then replaced), parsed without dictionary and with a dictionary written for the template (transport dictionary: none / the same / one that lists further header fields); (b) enumeration of (dictionary, message, group path) over all shipped dictionaries, 3 population variants x {API-written, spec-order wire, wire in a generated body order} x {with defining dictionary, without}, the dictionary object having parsed a sibling message (another message type with a group under the same tag) first; non-trivial = >=2 entries or a nested group, and >=1 body field after the group; distinct = distinct message bytes"
+const c13Rule = "(a) rapid: free group templates (depth<=3, 1-6 members, optional members absent, 0-4 entries) placed first/middle/last among body tags, written with SetGroup+build (a quarter of them set a first time with another population, optionally serialised, then replaced), parsed without dictionary and with a dictionary written for the template (transport dictionary: none / the same / one that lists further header fields); (b) enumeration of (dictionary, message, group path) over all shipped dictionaries, 3 population variants x {API-written, spec-order wire, wire in a generated body order} x {with defining dictionary, without}, the dictionary object having parsed a sibling message (another message type with a group under the same tag) first, templates built as generated message code builds them (nested groups as structs embedding *RepeatingGroup); non-trivial = >=2 entries or a nested group, and >=1 body field after the group; distinct = distinct message bytes"
 
 func c13() *stats.Collector {
 	c := stats.Get("C13")
@@ -122,6 +122,12 @@ func c13FreeProperty(t *rapid.T) {
 		c.Class("free:member-tag-from-header-range")
 	}
 	g := genFreeGroup(t, base, tm)
+	// templates as generated message code builds them: nested groups as structs embedding *RepeatingGroup
+	wrapNestedItems = rapid.IntRange(0, 2).Draw(t, "template-items-as-generated-code-wraps-them") == 0
+	defer func() { wrapNestedItems = false }()
+	if wrapNestedItems {
+		c.Class("free:nested-template-items-wrapped")
+	}
 	groupFill.order = rapid.IntRange(0, 2).Draw(t, "group-fill-order")
 	groupFill.reuse = rapid.Bool().Draw(t, "group-entry-reused")
 	defer func() { groupFill.order, groupFill.reuse = 0, false }()
@@ -546,6 +552,11 @@ func checkDictGroup(t fataler, pr c13pair, variant int, seed int64) {
 		}
 	}
 	items, head, begin, transport := c13Generate(t, pr, variant, seed, extra)
+	wrapNestedItems = (seed+int64(variant))%3 == 0
+	defer func() { wrapNestedItems = false }()
+	if wrapNestedItems && len(pr.gp.Path) > 1 {
+		c.Class("dict:nested-template-items-wrapped")
+	}
 	// two writers: spec-order wire (fixwire) and the quickfix API
 	rest := append([]fixwire.Field{}, head...)
 	for _, f := range specxml.Flatten(items) {
